@@ -85,6 +85,7 @@ func (w *WatcherHub) Stream(input chan []*proto.Event) {
 				// drop slow consumer
 				klog.InfoS("drop slow consumer", "chan", sub, "bufSize", watchBuffer)
 				w.metricCli.EmitCounter("drop.slow.watcher", 1)
+				verifYield("hub.slow_subscriber")
 				go w.DeleteWatcher(sub, true)
 			}
 		}
